@@ -37,6 +37,7 @@ typedef struct { TNode n[MAXNODE]; int nn; int child[MAXNODE * 2]; int nchild; i
 
 #define MAXTH 5
 static Prog* P[MAXTH];
+static int g_nolib;      /* C18: in-contract programs only, no library error paths */
 
 /* tolerant parser: unmatched catch/end/ret are ignored, open constructs are closed at the end,
  * so any subsequence of a plan is again a program */
@@ -53,7 +54,7 @@ static int parse_stmt(Prog* p, OpStream* s, int depth) {
   switch (o->code) {
     case E_NOP: t->kind = S_NOP; break;
     case E_THROW: t->kind = S_THROW; t->arg = (int)(((o->a[0] % NKIND) + NKIND) % NKIND); break;
-    case E_LIBTHROW: t->kind = S_LIBTHROW; t->arg = (int)(((o->a[0] % NKIND) + NKIND) % NKIND); break;
+    case E_LIBTHROW: t->kind = g_nolib ? S_THROW : S_LIBTHROW; t->arg = (int)(((o->a[0] % NKIND) + NKIND) % NKIND); break;
     case E_CALL: {
       t->kind = S_CALL;
       if (depth > 12) { t->kind = S_NOP; break; }
@@ -328,6 +329,7 @@ static void count_features(int th) {
 
 static void exc_execute(const Plan* p) {
   int nth = (int)plan_env(p, "threads", 0); if (nth > MAXTH - 1) nth = MAXTH - 1; if (nth < 0) nth = 0;
+  g_nolib = (int)plan_env(p, "nolib", 0);
   for (int th = 0; th <= nth; th++) {
     P[th] = harness_alloc(sizeof(Prog)); EXP[th] = harness_alloc(sizeof(Trace));
     OpStream* s = harness_alloc(sizeof(OpStream));
